@@ -56,17 +56,17 @@ var profiles = map[string]*profile{
 	"member": {name: "member", preArm: 10, lateBoot: 10, minNodes: 1, maxNodes: 5, extras: 3, warmUpd: 6, steps: [2]int{10, 50}, gatedBias: 50, padMax: 40,
 		tpl: map[string]int{"staletimeoutnow": 12, "cfgrevert": 40}, w: weights(map[string]int{"cfg": 16, "upd": 8, "elect": 6, "poke": 6, "xfer": 2, "crash": 3, "restart": 5, "adv": 12})},
 	"snap": {name: "snap", preArm: 20, autoSnap: 25, minNodes: 1, maxNodes: 4, extras: 1, warmUpd: 40, steps: [2]int{10, 40}, gatedBias: 40, padMax: 200,
-		tpl: map[string]int{"lagsnap": 30, "staleinstall": 10, "divergesnap": 20}, w: weights(map[string]int{"heldsnap": 5, "hold": 3, "snap": 12, "upd": 16, "restart": 6, "crash": 3, "stop": 3, "isolate": 4, "heal": 5, "cfg": 3, "adv": 12})},
+		tpl: map[string]int{"lagsnap": 30, "staleinstall": 10, "divergesnap": 20, "snaprace": 25}, w: weights(map[string]int{"heldsnap": 5, "hold": 3, "snap": 12, "upd": 16, "restart": 6, "crash": 3, "stop": 3, "isolate": 4, "heal": 5, "cfg": 3, "adv": 12})},
 	"crash": {name: "crash", preArm: 25, autoSnap: 15, minNodes: 1, maxNodes: 4, extras: 1, warmUpd: 20, steps: [2]int{10, 40}, gatedBias: 40, padMax: 120,
 		tpl: map[string]int{"crashpoint": 60, "lagsnap": 10}, w: weights(map[string]int{"crash": 14, "restart": 12, "upd": 14, "snap": 6, "cfg": 3, "adv": 12, "elect": 5})},
 	"client": {name: "client", minNodes: 1, maxNodes: 5, extras: 1, warmUpd: 10, steps: [2]int{10, 50}, gatedBias: 25, padMax: 60,
-		tpl: map[string]int{"lagsnap": 10, "divergesnap": 10}, w: weights(map[string]int{"upd": 20, "read": 8, "dread": 6, "barrier": 5, "xfer": 3, "cfg": 3, "elect": 5, "poke": 5, "isolate": 4, "heal": 4, "crash": 3, "restart": 5, "adv": 14})},
+		tpl: map[string]int{"lagsnap": 10, "divergesnap": 10, "snaprace": 15}, w: weights(map[string]int{"upd": 20, "read": 8, "dread": 6, "barrier": 5, "xfer": 3, "cfg": 3, "elect": 5, "poke": 5, "isolate": 4, "heal": 4, "crash": 3, "restart": 5, "adv": 14})},
 	"transfer": {name: "transfer", minNodes: 2, maxNodes: 5, extras: 1, warmUpd: 6, steps: [2]int{8, 40}, gatedBias: 60, padMax: 40,
 		tpl: map[string]int{"staletimeoutnow": 15, "cfgrevert": 25}, w: weights(map[string]int{"xfer": 16, "upd": 10, "cfg": 4, "poke": 8, "elect": 5, "dlv": 12, "sever": 5, "adv": 10})},
 	"chaos": {name: "chaos", preArm: 15, autoSnap: 25, lateBoot: 10, minNodes: 1, maxNodes: 5, extras: 2, warmUpd: 30, steps: [2]int{15, 60}, gatedBias: 10, padMax: 200, closing: true,
 		tpl: map[string]int{"lagsnap": 25, "crashpoint": 10, "staleinstall": 5, "divergesnap": 10, "staletimeoutnow": 4}, w: weights(map[string]int{"heldsnap": 2, "hold": 2, "upd": 16, "snap": 6, "cfg": 6, "xfer": 4, "crash": 4, "stop": 3, "restart": 8, "isolate": 4, "heal": 5, "adv": 16, "read": 3, "dread": 2, "barrier": 2})},
 	"snapmember": {name: "snapmember", preArm: 15, autoSnap: 20, minNodes: 2, maxNodes: 4, extras: 2, warmUpd: 12, steps: [2]int{10, 40}, gatedBias: 20, padMax: 60,
-		tpl: map[string]int{"lagsnap": 30}, w: weights(map[string]int{"heldsnap": 12, "unhold": 10, "snap": 6, "cfg": 14, "upd": 12, "adv": 14, "restart": 6, "stop": 3, "crash": 2, "isolate": 2, "heal": 4})},
+		tpl: map[string]int{"lagsnap": 30, "snaprace": 20}, w: weights(map[string]int{"heldsnap": 12, "unhold": 10, "snap": 6, "cfg": 14, "upd": 12, "adv": 14, "restart": 6, "stop": 3, "crash": 2, "isolate": 2, "heal": 4})},
 	"info": {name: "info", preArm: 10, autoSnap: 15, minNodes: 2, maxNodes: 5, extras: 1, warmUpd: 20, steps: [2]int{10, 50}, gatedBias: 50, padMax: 120,
 		tpl: map[string]int{"lagsnap": 25, "staleinstall": 25, "cfgrevert": 40}, w: weights(map[string]int{"snap": 8, "upd": 14, "isolate": 4, "heal": 4, "elect": 6, "crash": 3, "restart": 6, "cfg": 3})},
 }
@@ -97,7 +97,7 @@ func pickU64(rt *rapid.T, label string, xs []uint64) uint64 {
 
 var advChoices = []int64{10, 50, 100, 300, 600, 1100, 2500, 5000}
 
-var holdPoints = []string{"snap.begin", "snap.begin", "snap.fsmdone", "repl.preread", "repl.prewrite"}
+var holdPoints = []string{"snap.begin", "snap.begin", "snap.fsmdone", "repl.preread", "repl.prewrite", "snapopen.meta", "fsm.apply", "fsm.snapshot"}
 
 var crashPoints = []string{
 	"term.persisted", "vote.persisted", "append.appended", "append.truncated", "append.flushed",
